@@ -228,6 +228,8 @@ func (o *bigOwn) derivedFromOwnParam(v ssa.Value, fn *ssa.Function, seen map[ssa
 
 func checkC18(r *Run) {
 	P := r.P
+	roundingShapes(r, "C18-R4")
+	coinsMergeSiblings(r, "C18-R5")
 	r.NotDecided("exactness and rounding of Int/Uint/Dec arithmetic (numeric facts about math/big results) — out of reach of a structural argument")
 	r.NotDecided("Coins canonical form, Add/Sub inverse, comparison agreement, SafeSub exactness (value-level properties of sorted-merge code)")
 	o := newBigOwn(P)
